@@ -168,7 +168,11 @@ def make_genfunc(prep, sim, log, injected, method_of=None):
                 elif h == "return":
                     return
                 elif h == "yield_again":
-                    yield "again"
+                    try:
+                        yield "again"
+                    except BaseException as err2:
+                        log.append(("second_yield_got", type(err2).__name__))
+                        raise
                 elif h == "raise_stopasync":
                     raise StopAsyncIteration("from generator")
                 elif h == "raise_stopiter":
@@ -187,7 +191,11 @@ def make_genfunc(prep, sim, log, injected, method_of=None):
         log.append(("after",))
         await pause(susp[2])
         if prep.post == "yield_again":
-            yield "again2"
+            try:
+                yield "again2"
+            except BaseException as err2:
+                log.append(("second_yield_got", type(err2).__name__))
+                raise
         elif prep.post == "raise":
             raise GenError("post")
         elif prep.post == "raise_stopasync":
@@ -237,10 +245,12 @@ async def use(factory, prep, sim, log, injected, res):
                 await sim.suspend(PAUSE, None, "block")
             if injected[0] is not None:
                 raise injected[0]
+        log.append(("statement_left",))
         res.append(("suppressed",) if injected[0] is not None else ("normal",))
     except BaseException as err:
         if type(err).__name__ == "Cancel":
             raise
+        log.append(("statement_left",))
         res.append(("raised", type(err).__name__, err is injected[0], getattr(err, "marker", None)))
 
 
@@ -306,6 +316,13 @@ def run_prepared(prep, st, ctx):
             out.violate("C13.did_not_finish", sig, describe())
         else:
             a, r = ares[0], rres[0]
+            # "resumes or throws into the generator exactly once": a generator that yields a second time is reported, not
+            # closed on the spot (contextlib of 3.12 does close it: those events are dropped from the reference log);
+            # what its eventual finalisation does after the statement was left is no part of the comparison
+            if any(e[0] == "second_yield_got" for e in alog[: alog.index(("statement_left",))]):
+                out.violate("C13.generator_thrown_into_twice", sig, describe())
+            alog = [e for e in alog[: alog.index(("statement_left",))] if e[0] != "second_yield_got"]
+            rlog = [e for e in rlog[: rlog.index(("statement_left",))] if e[0] != "second_yield_got"]
             elog, expect = rlog, r
             if outcome == "GeneratorExit":
                 # the documented difference: the generator is closed, not thrown into
